@@ -1,0 +1,154 @@
+//go:build verif
+
+// Contracts for gvc (/verif). Comment-only: this file adds no declarations.
+
+package histutil
+
+// C29: history navigation. Sequential contracts on the cursors.
+//
+// The Cursor interface is used by the combinators below (hybrid, dedup) only
+// through Prev / Next / Get. Those calls change the sub-cursor's own state and
+// nothing else; since the combinators observe a sub-cursor only through the
+// results of later Get calls (never assumed to repeat), the calls are treated as
+// having no effect on the combinator's own fields (assumed: a cursor does not
+// contain itself).
+//@ func Cursor.Prev
+//@   trusted
+//@   pure
+//@ func Cursor.Next
+//@   trusted
+//@   pure
+//@ func Cursor.Get
+//@   trusted
+//@   pure
+
+// ---- in-memory (session) cursor: exact meaning over the command slice ----
+// state: -1 <= index <= len(cmds); index == -1 / len(cmds) are the two ends.
+
+// Prev moves to the nearest matching command strictly before the current
+// position, or to the front end; stepping past the front end changes nothing.
+//@ func memStoreCursor.Prev
+//@   props C29
+//@   requires -1 <= c.index && c.index <= len(c.cmds)
+//@   loop 1 invariant -1 <= c.index && c.index < old(c.index) && c === old(c) && c.cmds === old(c.cmds) && c.prefix === old(c.prefix)
+//@   loop 1 invariant forall j int :: c.index < j && j < old(c.index) ==> !hasprefix(c.cmds[j].Text, c.prefix)
+//@   ensures [stays-in-range] -1 <= c.index && c.index <= len(c.cmds) && c.cmds === old(c.cmds) && c.prefix === old(c.prefix)
+//@   ensures [past-the-front-end-is-a-no-op] old(c.index) < 0 ==> c.index == old(c.index)
+//@   ensures [moves-back] old(c.index) >= 0 ==> c.index < old(c.index)
+//@   ensures [lands-on-a-match-or-the-end] c.index >= 0 && old(c.index) >= 0 ==> hasprefix(c.cmds[c.index].Text, c.prefix)
+//@   ensures [skips-only-non-matching] forall j int :: c.index < j && j < old(c.index) ==> !hasprefix(c.cmds[j].Text, c.prefix)
+
+//@ func memStoreCursor.Next
+//@   props C29
+//@   requires -1 <= c.index && c.index <= len(c.cmds)
+//@   loop 1 invariant old(c.index) < c.index && c.index <= len(c.cmds) && c === old(c) && c.cmds === old(c.cmds) && c.prefix === old(c.prefix)
+//@   loop 1 invariant forall j int :: old(c.index) < j && j < c.index ==> !hasprefix(c.cmds[j].Text, c.prefix)
+//@   ensures [stays-in-range] -1 <= c.index && c.index <= len(c.cmds) && c.cmds === old(c.cmds) && c.prefix === old(c.prefix)
+//@   ensures [past-the-back-end-is-a-no-op] old(c.index) >= len(c.cmds) ==> c.index == old(c.index)
+//@   ensures [moves-forward] old(c.index) < len(c.cmds) ==> c.index > old(c.index)
+//@   ensures [lands-on-a-match-or-the-end] c.index < len(c.cmds) && old(c.index) < len(c.cmds) ==> hasprefix(c.cmds[c.index].Text, c.prefix)
+//@   ensures [skips-only-non-matching] forall j int :: old(c.index) < j && j < c.index ==> !hasprefix(c.cmds[j].Text, c.prefix)
+
+//@ func memStoreCursor.Get
+//@   props C29
+//@   pure
+//@   results cmd err
+//@   ensures [ends-report-end-of-history] (c.index < 0 || c.index >= len(c.cmds)) ==> err === ErrEndOfHistory
+//@   ensures [current-command] 0 <= c.index && c.index < len(c.cmds) ==> err == nil && cmd === c.cmds[c.index]
+
+// ---- hybrid cursor: session first, then the shared (database) history ----
+//@ func hybridStoreCursor.Prev
+//@   props C29
+//@   log Cursor.Prev Cursor.Next Cursor.Get
+//@   exit [shared-part-continues-in-shared] old(c.useShared) ==> ncalls == 1 && callis(0, "Cursor.Prev") && callfn(0) === recvid(old(c.shared)) && c.useShared
+//@   exit [session-part-first] !old(c.useShared) ==> callis(0, "Cursor.Prev") && callfn(0) === recvid(old(c.session)) && callis(1, "Cursor.Get") && callfn(1) === recvid(old(c.session))
+//@   exit [hand-off-when-session-is-exhausted] !old(c.useShared) && callerr(1) === ErrEndOfHistory ==> ncalls == 3 && callis(2, "Cursor.Prev") && callfn(2) === recvid(old(c.shared)) && c.useShared
+//@   exit [no-hand-off-otherwise] !old(c.useShared) && !(callerr(1) === ErrEndOfHistory) ==> ncalls == 2 && !c.useShared
+
+//@ func hybridStoreCursor.Next
+//@   props C29
+//@   log Cursor.Prev Cursor.Next Cursor.Get
+//@   exit [session-part-continues-in-session] !old(c.useShared) ==> ncalls == 1 && callis(0, "Cursor.Next") && callfn(0) === recvid(old(c.session)) && !c.useShared
+//@   exit [shared-part-first] old(c.useShared) ==> callis(0, "Cursor.Next") && callfn(0) === recvid(old(c.shared)) && callis(1, "Cursor.Get") && callfn(1) === recvid(old(c.shared))
+//@   exit [hand-back-when-shared-is-exhausted] old(c.useShared) && callerr(1) === ErrEndOfHistory ==> ncalls == 3 && callis(2, "Cursor.Next") && callfn(2) === recvid(old(c.session)) && !c.useShared
+//@   exit [no-hand-back-otherwise] old(c.useShared) && !(callerr(1) === ErrEndOfHistory) ==> ncalls == 2 && c.useShared
+
+//@ func hybridStoreCursor.Get
+//@   props C29
+//@   log Cursor.Get
+//@   results cmd err
+//@   exit [reads-the-active-part] ncalls == 1 && callfn(0) === recvid(c.useShared ? c.shared : c.session) && err === callerr(0)
+
+// ---- database cursor: the view is frozen at the sequence number `upper` ----
+// (the store's PrevCmd returns a command strictly before the given number: C24)
+//@ func DB.PrevCmd
+//@   trusted
+//@   pure
+//@   params upto prefix
+//@   results cmd err
+//@   ensures err == nil ==> cmd.Seq < upto
+//@ func DB.NextCmd
+//@   trusted
+//@   pure
+
+// whatever the database answers (including commands added by other sessions
+// after this one started), the cursor never shows a command at or beyond upper
+// state invariant: the position is never beyond upper, and at upper the cursor reports an error (end of history)
+//@ spec fn dbwf(c *dbStoreCursor) bool = c.cmd.Seq <= c.upper && (c.cmd.Seq >= c.upper ==> !(c.err === nil))
+//@ func dbStoreCursor.Next
+//@   props C29
+//@   requires dbwf(c)
+//@   ensures [upper-bound-frozen] c.upper == old(c.upper)
+//@   ensures [never-beyond-the-frozen-view] dbwf(c)
+
+//@ func dbStoreCursor.Prev
+//@   props C29
+//@   requires dbwf(c)
+//@   ensures [upper-bound-frozen] c.upper == old(c.upper)
+//@   ensures [never-beyond-the-frozen-view] dbwf(c)
+
+//@ func dbStoreCursor.Get
+//@   props C29
+//@   pure
+//@   results cmd err
+//@   ensures cmd === c.cmd && err === c.err
+
+// ---- de-duplicating cursor ----
+// invariant: 0 <= current + 1, current <= len(stack); every text on the stack is
+// marked in occ; texts on the stack are pairwise different.
+//@ spec fn dwf(c *dedupCursor) bool = -1 <= c.current && c.current <= len(c.stack) && c.occ != nil && (forall i int :: 0 <= i && i < len(c.stack) ==> haskey(c.occ, c.stack[i].Text) && c.occ[c.stack[i].Text]) && (forall i int :: 0 <= i && i < len(c.stack) ==> (forall j int :: i < j && j < len(c.stack) ==> !samekey(c.stack[i].Text, c.stack[j].Text)))
+
+//@ func dedupCursor.Next
+//@   props C29
+//@   requires dwf(c)
+//@   ensures [retraces-one-step] old(c.current) >= 0 ==> c.current == old(c.current) - 1
+//@   ensures [past-the-newest-end-is-a-no-op] old(c.current) < 0 ==> c.current == old(c.current)
+//@   ensures [stack-untouched] c.stack === old(c.stack) && c.occ === old(c.occ)
+
+//@ func dedupCursor.Get
+//@   props C29
+//@   requires dwf(c)
+//@   log Cursor.Get
+//@   results cmd err
+//@   exit [newest-end] c.current < 0 ==> err === ErrEndOfHistory && ncalls == 0
+//@   exit [remembered-entry] 0 <= c.current && c.current < len(c.stack) ==> err == nil && cmd === c.stack[c.current] && ncalls == 0
+//@   exit [oldest-end-asks-the-source] c.current >= len(c.stack) ==> ncalls == 1 && err === callerr(0)
+
+// Prev: inside the remembered part it just steps; at its old end it pulls from
+// the source until it finds a text not seen before, which becomes the one new
+// remembered entry (so each distinct text is remembered once, at its most recent
+// occurrence), or until the source is exhausted.
+//@ func dedupCursor.Prev
+//@   props C29
+//@   requires dwf(c)
+//@   log Cursor.Prev Cursor.Get
+//@   loop 1 invariant c === old(c) && c.stack === old(c.stack) && c.occ === old(c.occ) && c.current == old(c.current) && dwf(c)
+//@   loop 1 invariant ncalls % 2 == 0
+//@   ensures [inv-range] -1 <= c.current && c.current <= len(c.stack) && c.occ != nil
+//@   ensures [inv-remembered-texts-are-marked] forall i int :: 0 <= i && i < len(c.stack) ==> haskey(c.occ, c.stack[i].Text) && c.occ[c.stack[i].Text]
+//@   ensures [inv-remembered-texts-are-distinct] forall i int :: 0 <= i && i < len(c.stack) ==> (forall j int :: i < j && j < len(c.stack) ==> !samekey(c.stack[i].Text, c.stack[j].Text))
+//@   exit [steps-inside-the-remembered-part] old(c.current) < old(len(c.stack)) - 1 ==> c.current == old(c.current) + 1 && c.stack === old(c.stack) && ncalls == 0
+//@   ensures [remembers-at-most-one-more] len(c.stack) <= old(len(c.stack)) + 1 && len(c.stack) >= old(len(c.stack))
+//@   ensures [remembered-entries-kept] forall i int :: 0 <= i && i < old(len(c.stack)) ==> c.stack[i] === old(c.stack)[i]
+//@   ensures [lands-on-the-new-end] old(c.current) >= old(len(c.stack)) - 1 ==> c.current == old(len(c.stack))
+//@   exit [the-new-entry-is-what-the-source-returned-last] len(c.stack) == old(len(c.stack)) + 1 ==> callis(ncalls - 1, "Cursor.Get") && callerr(ncalls - 1) === nil
